@@ -98,64 +98,64 @@ pub(crate) fn set_nano(nanos: u64, nano: u32) -> Result<u64, AstrolabeError> {
     Ok(set_subsecond_value(nanos, nano as u64, 1))
 }
 
-pub(crate) fn add_hours(nanos: u64, hours: u32) -> u64 {
-    let hours_as_nanos = hours as u64 * SECS_PER_HOUR_U64 * NANOS_PER_SEC;
+pub(crate) fn add_hours(nanos: u64, hours: u32) -> u128 {
+    let hours_as_nanos = hours as u128 * SECS_PER_HOUR_U64 as u128 * NANOS_PER_SEC as u128;
 
-    nanos + hours_as_nanos
+    nanos as u128 + hours_as_nanos
 }
 
-pub(crate) fn add_minutes(nanos: u64, minutes: u32) -> u64 {
-    let minutes_as_nanos = minutes as u64 * SECS_PER_MINUTE_U64 * NANOS_PER_SEC;
+pub(crate) fn add_minutes(nanos: u64, minutes: u32) -> u128 {
+    let minutes_as_nanos = minutes as u128 * SECS_PER_MINUTE_U64 as u128 * NANOS_PER_SEC as u128;
 
-    nanos + minutes_as_nanos
+    nanos as u128 + minutes_as_nanos
 }
 
-pub(crate) fn add_seconds(nanos: u64, seconds: u32) -> u64 {
-    let minutes_as_nanos = seconds as u64 * NANOS_PER_SEC;
+pub(crate) fn add_seconds(nanos: u64, seconds: u32) -> u128 {
+    let minutes_as_nanos = seconds as u128 * NANOS_PER_SEC as u128;
 
-    nanos + minutes_as_nanos
+    nanos as u128 + minutes_as_nanos
 }
 
-pub(crate) fn add_millis(nanos: u64, millis: u32) -> u64 {
-    let millis_as_nanos = millis as u64 * 1_000_000;
+pub(crate) fn add_millis(nanos: u64, millis: u32) -> u128 {
+    let millis_as_nanos = millis as u128 * 1_000_000;
 
-    nanos + millis_as_nanos
+    nanos as u128 + millis_as_nanos
 }
 
-pub(crate) fn add_micros(nanos: u64, micros: u32) -> u64 {
-    let micros_as_nanos = micros as u64 * 1_000;
+pub(crate) fn add_micros(nanos: u64, micros: u32) -> u128 {
+    let micros_as_nanos = micros as u128 * 1_000;
 
-    nanos + micros_as_nanos
+    nanos as u128 + micros_as_nanos
 }
 
-pub(crate) fn sub_hours(nanos: i64, hours: u32) -> i64 {
-    let hours_as_nanos = hours as i64 * SECS_PER_HOUR_U64 as i64 * NANOS_PER_SEC as i64;
+pub(crate) fn sub_hours(nanos: i64, hours: u32) -> i128 {
+    let hours_as_nanos = hours as i128 * SECS_PER_HOUR_U64 as i128 * NANOS_PER_SEC as i128;
 
-    nanos - hours_as_nanos
+    nanos as i128 - hours_as_nanos
 }
 
-pub(crate) fn sub_minutes(nanos: i64, minutes: u32) -> i64 {
-    let minutes_as_nanos = minutes as i64 * SECS_PER_MINUTE_U64 as i64 * NANOS_PER_SEC as i64;
+pub(crate) fn sub_minutes(nanos: i64, minutes: u32) -> i128 {
+    let minutes_as_nanos = minutes as i128 * SECS_PER_MINUTE_U64 as i128 * NANOS_PER_SEC as i128;
 
-    nanos - minutes_as_nanos
+    nanos as i128 - minutes_as_nanos
 }
 
-pub(crate) fn sub_seconds(nanos: i64, seconds: u32) -> i64 {
-    let minutes_as_nanos = seconds as i64 * NANOS_PER_SEC as i64;
+pub(crate) fn sub_seconds(nanos: i64, seconds: u32) -> i128 {
+    let minutes_as_nanos = seconds as i128 * NANOS_PER_SEC as i128;
 
-    nanos - minutes_as_nanos
+    nanos as i128 - minutes_as_nanos
 }
 
-pub(crate) fn sub_millis(nanos: i64, millis: u32) -> i64 {
-    let millis_as_nanos = millis as i64 * 1_000_000;
+pub(crate) fn sub_millis(nanos: i64, millis: u32) -> i128 {
+    let millis_as_nanos = millis as i128 * 1_000_000;
 
-    nanos - millis_as_nanos
+    nanos as i128 - millis_as_nanos
 }
 
-pub(crate) fn sub_micros(nanos: i64, micros: u32) -> i64 {
-    let micros_as_nanos = micros as i64 * 1_000;
+pub(crate) fn sub_micros(nanos: i64, micros: u32) -> i128 {
+    let micros_as_nanos = micros as i128 * 1_000;
 
-    nanos - micros_as_nanos
+    nanos as i128 - micros_as_nanos
 }
 
 pub(crate) fn clear_nanos_until_minute(nanos: u64) -> u64 {
